@@ -114,7 +114,9 @@ def bpeLe (rank : Bytes → Option Nat) (a b : Id × Bytes) : Bool :=
   | none, none => a.1 ≤ b.1
 
 /-- "Fix special tokens with invalid IDs": in the sorted order of the specials, a special whose id belongs to
-    a different vocabulary token gets the next id above everything handed out so far. -/
+    a different vocabulary token gets the next id above everything handed out so far (`maxId` starts at the largest
+    id of the vocabulary and of the specials; before the F24 repair only of the vocabulary, so that a new id could be
+    the id of another special). -/
 def repairIds (vocab : List (Id × Bytes)) : List SpecialDef → (maxId : Nat) → Except HfError (List SpecialDef)
   | [], _ => .ok []
   | sp :: rest, maxId =>
@@ -146,7 +148,8 @@ def convertHfBpe (vocab : List (Bytes × Id)) (merges : List Bytes) (added : Lis
     let rank (b : Bytes) : Option Nat := (rankMap.find? fun e => e.1 == b).map (·.2)
     let sorted := (pv (vocabMap.map fun (b, id) => (id, b))).mergeSort (bpeLe rank)
     let specials := (ps (specialsMap.map (·.2))).mergeSort specialLe
-    let maxId := (sorted.map (·.1.toNat)).foldl max 0
+    -- after the F24 repair: above every id in use, by the vocabulary or by another special
+    let maxId := ((sorted.map (·.1.toNat)) ++ (specials.map (·.id.toNat))).foldl max 0
     match repairIds sorted specials maxId with
     | .error e => .error e
     | .ok specials' => .ok { vocab := postSteps byteChars byteRunes sorted, specials := specials' }
